@@ -10,7 +10,7 @@ CLAIMED = {
    note='Trusted: go/types + go/ssa; math/big semantics; A-deps; A-protomsg. One known finding listed in known_findings.json.'),
  'C02': dict(
    level='other', design='DESIGN.md §5 C02',
-   technique='static analysis: exact-guard dominance for big.Int Sub/Add on balances with versioned operand terms, direction/amount classification of Value mutations per entry point against T-REG, cut of the wipe delete by the Frozen test',
+   technique='static analysis: exact-guard dominance for big.Int Sub/Add on balances with versioned operand terms, direction/amount classification of Value mutations per entry point against T-REG, cut of the wipe delete by the Frozen test; counter/role hand-over identities and success cuts (fresh-nonce clause)',
    text='Every subtraction from a balance is dominated by exactly Cmp(minuend, subtrahend) >= 0 on the same versions of both operands (strict guards that reject the exact balance are reported too); the signed Add of the shared helper is followed by exactly Cmp(Value,0) >= 0; per registered name the Value mutations have the table\'s direction with amounts decoded from the arguments; supply-neutral functions never mutate a Value; wipe deletes only under Frozen of the entry read from the same account and key. That the stored number equals old +/- amount is math/big arithmetic and is not decided.',
    note='Trusted: go/types + go/ssa; math/big; T-REG supply column.'),
  'C07': dict(
@@ -50,12 +50,12 @@ CLAIMED = {
    note='Trusted: go/types + go/ssa; the protocol argument layout of the three transfer functions; A-presence.'),
  'C10': dict(
    level='other', design='DESIGN.md §5 C10',
-   technique='static analysis: string-shape flattening of emitted data (through loops and helper parameters) against the grammar Head(\"@\" hex)*; constant/guard agreement; extraction and comparison of argument-position tables (linear forms a*i+b*n+c) of ledger and parser per role and execution side',
+   technique='static analysis: string-shape flattening of emitted data (through loops and helper parameters) against the grammar Head(\"@\" hex)*; constant/guard agreement; classification of destination-side error exits (none decided by argument content); extraction and comparison of argument-position tables (linear forms a*i+b*n+c) of ledger and parser per role and execution side',
    text='Every emitted data string has the shape the call-arguments parser inverts, with the parsers\' separator constant; constant heads are the emitter\'s own protocol name; minimum-count constants, stride and the ledger\'s effective guards agree; and for each of the three transfer functions and both sides the positions the ledger uses for token, nonce/count, value/payload, destination, attached function and arguments equal the positions the parser binds to its exported fields. Numeric equality of parsed values and ledger diffs is not decided.',
    note='Trusted: go/types + go/ssa; hex encode/decode are inverse; A-protomsg.'),
  'C14': dict(
    level='other', design='DESIGN.md §5 C14',
-   technique='static analysis: wire-table extraction from struct tags, the .proto file and the AST of the generated marshaller/unmarshaller/Size and comparison; guard/return classification of the hand-written amount caster; index-bound entailment',
+   technique='static analysis: wire-table extraction from struct tags, the .proto file and the AST of the generated marshaller/unmarshaller/Size and comparison; guard/return classification of the hand-written amount caster; index-bound entailment; fold-width and signed-reinterpretation bounds; must-pass-through of the explicit overflow test before every use of cursor+decoded length in all decoders (generated file included)',
    text='Table agreement only: tags = .proto = marshaller tag bytes (descending order, attributed per field) = unmarshaller (case, wire type, field) = Size contributions for the three messages; Size/MarshalTo length tables agree; sign byte 1 iff Sign()<0; magnitude at buf[1:] on both sides; reader negates exactly under 1 and rejects other sign bytes; caster index sites in range. The round trip, canonicity over all values and totality of the generated decoder are not decided (no protoc to regenerate, values are outside static reach).',
    note='Trusted: go/types, go/ast of the generated file, go/ssa; the .proto file as the documented format; one listed exception (MarshalTo nil case: buffer sized by Size).'),
  'C11': dict(
@@ -65,7 +65,7 @@ CLAIMED = {
    note='Trusted: go/types + go/ssa; A-len, A-argbytes, A-presence, A-protomsg, A-input; one listed exception (deleteRoles: index returned by a linear search).'),
  'C12': dict(
    level='other', design='DESIGN.md §5 C12',
-   technique='static analysis: index-bound entailment and count taint over package parsers (exported methods as entry points), nil-ness cut for decoded numeric fields, constant/codec agreement between builder and parsers',
+   technique='static analysis: index-bound entailment and count taint over package parsers (exported methods as entry points), nil-ness cut for decoded numeric fields, constant/codec agreement between builder and parsers incl. the numeric encoders (big.Int.Bytes of the parameter)',
    text='Decides totality clauses of the four parsers (all index/slice sites entailed in range incl. the parity lemma for the stride-2 loop and strings.Split length facts; the transfer count bounded before it is multiplied; decoded *big.Int fields nil-checked) and the grammar agreement builder <-> parsers (same separator constant, hex codec on every appended element). The round trip as an equation over all strings is not decided.',
    note='Trusted: go/types + go/ssa; A-len; strings.Split returns >= 1 element for a non-empty separator.'),
  'C13': dict(
@@ -80,17 +80,17 @@ CLAIMED = {
    note='Trusted: go/types + go/ssa; sync.RWMutex / sync/atomic semantics; objects are published after construction.'),
  'C16': dict(
    level='other', design='DESIGN.md §5 C16',
-   technique='static analysis: three-way table agreement (factory argument / constructor field / SetNewGasConfig copy) against T-REG, field-read ownership, CFG cuts for all-or-nothing schedule changes, must-pass-through charge points',
+   technique='static analysis: three-way table agreement (factory argument / constructor field / SetNewGasConfig copy) against T-REG, field-read ownership, CFG cuts for all-or-nothing schedule changes, must-pass-through of SetNewGasConfig in the broadcast loop and of every cost copy inside SetNewGasConfig, must-pass-through charge points',
    text='For each priced protocol name the cost field is the table\'s field at all three places; only the documented per-byte prices are read (and each is); a schedule is stored and broadcast only after both tables decoded and passed the zero check, and every table field is of a kind that check inspects; every sender-side success path passes a charge that includes the own cost (structurally: cost, cost+…, cost*n, loop accumulator seeded with cost). The consumed amount as a number is not decided.',
    note='Trusted: go/types + go/ssa; T-REG; mapstructure.Decode and reflect-based zero check behave as documented.'),
  'C18': dict(
    level='proof', design='DESIGN.md §5 C18',
-   technique='static analysis: registry extraction from the factory (constant keys, constructors, constant flags) compared with T-REG and the BuiltInFunction* constant set; spine cut of Add calls; abstract evaluation of the flag writer/reader constants; field-store ownership',
+   technique='static analysis: registry extraction from the factory (constant keys, constructors, constant flags) compared with T-REG and the BuiltInFunction* constant set; spine cut of Add calls; abstract evaluation of the flag writer/reader constants (the flag condition must be an arithmetic-free comparison of the two epochs); field-store ownership',
    text='Finite, purely structural obligations, all discharged: exactly the 23 protocol names are registered once each on every successful path, bound to the table\'s constructor and flags, never removed/replaced; EpochConfirmed hands exactly epoch >= activationEpoch to a writer that stores the constant the reader tests (true) / another constant (false) independent of the previous value, so the flag equals the predicate on the last confirmed epoch for every notification sequence; the activation epoch comes from the configured value; epoch-driven constructors subscribe to the notifier; exactly the table\'s epoch rows use the flag.',
    note='Trusted: go/types + go/ssa; sync/atomic; the notifier calls back for every confirmed epoch; T-REG.'),
  'C20': dict(
    level='other', design='DESIGN.md §5 C20',
-   technique='static analysis: extraction and comparison of (byte, mask, field) tables of writer and reader; index-bound entailment for the root package; rooted-write/alias analysis of the merge functions; guard/return classification of SafeSubUint64',
+   technique='static analysis: extraction and comparison of (byte, mask, field) tables of writer and reader; index-bound entailment for the root package; rooted-write/alias analysis of the merge functions; must-read of every merged field on all paths; byte-range table of the address classifiers against their constants; guard/return classification of SafeSubUint64',
    text='Decides the structural clauses behind the laws: writer and reader flag tables agree (single-bit distinct masks, same length, zero value otherwise), all index/slice sites of the root package are in range and the metachain classification implies the contract classification, the merge functions never write through or keep a mutable alias of the merged-in account, SafeSubUint64 errors exactly under a < b and returns a-b otherwise. The laws as equations over all values are not decided.',
    note='Trusted: go/types + go/ssa; A-len.'),
  'C17': dict(
